@@ -319,9 +319,22 @@ def _check_response(case, wcap=None):
     verts, edges, centres = _expected_layout(spec)
     s_lo, s_hi = (float(x) for x in bank.supports_hz[k])
     info = {"span_over_rate": (s_hi - s_lo) / rate}
-    if not (s_hi - s_lo < rate / 2.0):
-        return [], False, dict(info, skipped="support spans >= rate/2")
     kind = spec["bank"]
+    l2 = bool(spec.get("l2", False)) and kind in ("gabor", "gamma")
+    own = s_hi - s_lo < rate / 2.0
+    # An L2-scaled filter is the unit-gain filter times a constant; its images overlap exactly when those of
+    # the unit-gain filter do.  So for the L2 clause the restriction is also evaluated on the unit-gain twin
+    # (a wrong normalisation constant inflates the advertised support and would otherwise make the clause
+    # vacuous on precisely the banks it is about).
+    twin = False
+    if l2 and not own:
+        try:
+            t_lo_hz, t_hi_hz = (float(x) for x in _build(F, S, dict(spec, l2=False)).supports_hz[k])
+            twin = t_hi_hz - t_lo_hz < rate / 2.0
+        except Exception:
+            twin = False
+    if not own and not twin:
+        return [], False, dict(info, skipped="support spans >= rate/2")
     centre = centres[k]
     if verts is not None:
         left, right = verts[k], verts[k + 2]
@@ -329,8 +342,32 @@ def _check_response(case, wcap=None):
     else:
         left, right = edges[k], edges[k + 1]
         bw = right - left
-    l2 = bool(spec.get("l2", False)) and kind in ("gabor", "gamma")
     fails = []
+    if own:
+        stop = _frequency_clauses(bank, spec, k, kind, l2, thr, rate, centre, left, right, bw, wcap, fails, info)
+        if stop is not None:
+            return stop
+    # --- L2 norm ----------------------------------------------------------------------------
+    if l2:
+        t_lo, t_hi = bank.supports[k]
+        Wt = 4 * (int(t_hi) - int(t_lo) + 1)
+        if Wt > 4 * wcap:
+            info["l2_skipped"] = f"buffer {Wt} > cap"
+            if not own:
+                return fails, False, info
+        else:
+            with warnings.catch_warnings():
+                warnings.simplefilter("ignore")
+                imp = np.asarray(bank.get_impulse_response(k, Wt))
+            norm = float(np.sqrt(np.sum(np.abs(imp) ** 2)))
+            info["l2_norm"] = norm
+            if not (abs(norm - 1.0) <= TOL_REL):
+                fails.append(("C05.l2_norm", f"filter {k}: impulse response (buffer {Wt}) has L2 norm {norm!r}, not 1 within {TOL_REL}"))
+    return fails, True, info
+
+
+def _frequency_clauses(bank, spec, k, kind, l2, thr, rate, centre, left, right, bw, wcap, fails, info):
+    """Peak / gain, ERB or 3 dB crossing of one filter; appends to `fails`; returns an early result or None."""
 
     def resp(W):
         with warnings.catch_warnings():
@@ -390,21 +427,7 @@ def _check_response(case, wcap=None):
                         ("C05.crossing_3db", f"filter {k}: gain at its band edge {e:.4f} Hz is {g!r} of the peak ({20*math.log10(max(g,1e-300)):.4f} dB), not 3 dB down")
                     )
                     break
-    # --- L2 norm ----------------------------------------------------------------------------
-    if l2:
-        t_lo, t_hi = bank.supports[k]
-        Wt = 4 * (int(t_hi) - int(t_lo) + 1)
-        if Wt > 4 * wcap:
-            info["l2_skipped"] = f"buffer {Wt} > cap"
-        else:
-            with warnings.catch_warnings():
-                warnings.simplefilter("ignore")
-                imp = np.asarray(bank.get_impulse_response(k, Wt))
-            norm = float(np.sqrt(np.sum(np.abs(imp) ** 2)))
-            info["l2_norm"] = norm
-            if not (abs(norm - 1.0) <= TOL_REL):
-                fails.append(("C05.l2_norm", f"filter {k}: impulse response (buffer {Wt}) has L2 norm {norm!r}, not 1 within {TOL_REL}"))
-    return fails, True, info
+    return None
 
 
 _BANK_CLASS = {"tri": "TriangularOverlappingFilterBank", "fbank": "Fbank", "gabor": "GaborFilterBank", "gamma": "ComplexGammatoneFilterBank"}
